@@ -70,7 +70,8 @@ class C16(Harness):
         import numpy as np
 
         if k == "padding":
-            return W.load(PANEL + ".padder").PaddingTransformer(pad_length=4, fill_value=0.5)
+            # pad_length=None: the length found at fit (longest training series) also applies to later, shorter batches
+            return W.load(PANEL + ".padder").PaddingTransformer(pad_length=None if inp["m"] == 1 else 4, fill_value=0.5)
         if k == "truncation":
             return W.load(PANEL + ".truncation").TruncationTransformer(lower=2)
         if k == "paa":
